@@ -271,3 +271,57 @@ def inline_bool_predicates(F, f, same_class_only=True, depth=0):
     g = dict(f)
     g["body"] = rec(f.get("body"))
     return g
+
+
+def inline_expr_helpers(F, f, keep=(), depth=0):
+    """A copy of function f in which a call of a small private helper of the same class whose body is `[const locals;]
+    return <expr>;` is replaced by that expression over the caller's arguments (keep: fids never inlined - the routines
+    the rules are about).  Canonical-form rules then see through such wrappers."""
+    import copy
+
+    def subst(e, env):
+        if isinstance(e, list):
+            return [subst(x, env) for x in e]
+        if not isinstance(e, dict):
+            return e
+        if e.get("k") == "var" and e.get("id") in env:
+            return copy.deepcopy(env[e["id"]])
+        return {k_: (subst(v, env) if isinstance(v, (dict, list)) and k_ not in ("t", "ty", "lt", "to", "callee") else v) for k_, v in e.items()}
+
+    def body_expr(g, args):
+        if g.get("body") is None or len(g["params"]) != len(args):
+            return None
+        env = {p_["id"]: a_ for p_, a_ in zip(g["params"], args)}
+        for st in g["body"].get("body", []):
+            k = st.get("k") if isinstance(st, dict) else None
+            if k == "null":
+                continue
+            if k == "decl" and st.get("init") is not None and st.get("bind") != "alias" and (st.get("ty") or {}).get("c") in ("int", "double", "bool"):
+                env[st["id"]] = subst(st["init"], env)
+                continue
+            if k == "return" and st.get("e") is not None:
+                return subst(st["e"], env)
+            return None
+        return None
+
+    def pure_args(args):
+        # an argument used more than once is duplicated: only side-effect free arguments (no assignment, no ++/--)
+        return not any(x.get("k") == "assign" or (x.get("k") == "un" and x.get("op") in ("++", "--")) for a in args for x in walk(a))
+
+    def rec(n):
+        if isinstance(n, list):
+            return [rec(x) for x in n]
+        if not isinstance(n, dict):
+            return n
+        if n.get("k") == "call" and (n.get("callee") or {}).get("repo") and n["callee"].get("fid") not in keep:
+            g = F.by_fid.get(n["callee"].get("fid"))
+            if g is not None and g["fid"] != f["fid"] and g.get("cls") == f.get("cls") and (n.get("obj") is None or (n["obj"] or {}).get("k") == "this") and depth < 4 and g.get("kind") in (None, "method"):
+                args = [rec(a) for a in n.get("args", [])]
+                if pure_args(args):
+                    ex = body_expr(inline_expr_helpers(F, g, keep, depth + 1), args)
+                    if ex is not None:
+                        return ex
+        return {k_: (rec(v) if isinstance(v, (dict, list)) and k_ not in ("t", "ty", "lt", "to", "callee") else v) for k_, v in n.items()}
+    g = dict(f)
+    g["body"] = rec(f.get("body"))
+    return g
